@@ -545,6 +545,31 @@ def suite_gen(which: set[str]):
                         if rng.random() < 0.03:
                             pr = 0
                         compare("parse_num_per_batch", [tot, pr, mx], call_real(fn_, tot, pr, mx))
+            if "ranges" in which:
+                # multiround._get_files_range_tuples on real .npy files (row counts incl. 0, 1-12 files, packed or not): labels, handles
+                # (position + 100 stands for the path), starts and ends
+                import shutil as _shutil
+                import tempfile as _tmp
+                from pathlib import Path as _P
+                import bblean.multiround as MRm
+                base = _P(_tmp.mkdtemp(prefix="bbverif-rg-", dir=os.environ.get("VERIF_SCRATCH", "/var/tmp")))
+                try:
+                    for i in range(max(30, N // 4)):
+                        ddir = base / f"g{i}"
+                        ddir.mkdir()
+                        nfl = rng.choice([0, 1, 2, 3, 9, 10, 11, 12]) if rng.random() < 0.9 else rng.randint(95, 105)
+                        counts = [rng.choice([0, 1, 2, 5, 17, 300]) for _ in range(nfl)]
+                        paths = []
+                        for j, c_ in enumerate(counts):
+                            pth = ddir / f"in-{rng.randint(0, 999)}-{j}.npy"
+                            np.save(pth, np.zeros((c_, rng.choice([1, 2, 8])), dtype=np.uint8))
+                            paths.append(pth)
+                        out = MRm._get_files_range_tuples(paths)
+                        hmap = {str(p_): 100 + j for j, p_ in enumerate(paths)}
+                        real = tuple(x for (lab, p_, a_, b_) in out for x in (lab, hmap[str(p_)], int(a_), int(b_)))
+                        compare("_get_files_range_tuples", [[100 + j for j in range(nfl)], list(counts)], real)
+                finally:
+                    _shutil.rmtree(base, ignore_errors=True)
             if "reader" in which:
                 # _memory.get_peak_memory_gib for real (real files): absent file, complete texts (reprs of floats), proper prefixes
                 # of such texts, the empty file; effects recorded at the module's own `open`
